@@ -1216,3 +1216,162 @@ class push_cursor:
             if not is_none(a.char):
                 ch2, cur2 = AM(old.charset, val(a.char))
                 yield "character-lands-on-the-old-cursor-cell", cell_eq(cell(s.term, y0, x0), (old.attrspec, cur2, ch2))
+
+
+# =================================================================================================
+# resize (incl. the exchange of lines with the scroll-back) and the tab-stop table
+
+
+def tab_bytes(w):
+    """Bytes of tab-stop table needed for w columns."""
+    return (w + 7) // 8
+
+
+def mkints(n, f):
+    return Q.SSeq(n, f, Int(0, 255), None, "ints")
+
+
+def extended_tabstops(s, n):
+    """The tab-stop table grown to n bytes (new bytes: a stop in their first column); never shrunk."""
+    old = rows_of(s.tabstops)
+    n0 = Q.seq_len(old)
+    return mkints(imax(n0, n), lambda j: ite(j < n0, Q.seq_get(old, j), 1))
+
+
+def _tabstops_model(old, a):
+    n = tab_bytes(old.width)
+    return extended_tabstops(old, n) if a.extend else mkints(n, lambda j: 1)
+
+
+@contract(VT + "TermCanvas.init_tabstops", property="C15")
+class init_tabstops:
+    self_shape = TERM
+    params = dict(extend=Bool)
+    modifies = ("tabstops",)
+    replayable = False
+    independent_posts = True
+    loops = {0: Loop(modifies=("self.tabstops",), decreases=lambda v: v.tablen - Q.seq_len(rows_of(v.self.tabstops)), invariant=lambda v: both(
+        v.tablen == tab_bytes(v.self.width), Q.seq_len(rows_of(v.self.tabstops)) <= imax(Q.seq_len(rows_of(v.old.self.tabstops)), v.tablen),
+        same_value("tabstops", v.self.tabstops, extended_tabstops(v.old.self, Q.seq_len(rows_of(v.self.tabstops))))))}
+
+    def requires(s, a):
+        return s.width >= 1
+
+    def ensures(old, s, a, result):
+        yield "a-byte-for-every-column", Q.seq_len(rows_of(s.tabstops)) * 8 >= old.width
+        yield "tabstops-is-the-model-value", same_value("tabstops", s.tabstops, _tabstops_model(old, a))
+        yield "frame", frame(old, s, "tabstops")
+
+    def effects(old, s, a, result):
+        s.fields["tabstops"] = Q.LRef(_tabstops_model(old, a))
+
+    ensures_callee = staticmethod(lambda old, s, a, result: ())
+
+
+def fit_row(s, rw, w):
+    """A row brought to width w: cut, or padded with blank cells."""
+    return mkrow(w, lambda x: ite(x < Q.seq_len(rw), Q.seq_get(rw, x), blank(s)))
+
+
+def width_adjusted(s, w, upto=None):
+    """The grid with rows [0, upto) (all rows if None) brought to width w."""
+    return mkrows(s.height, lambda r: fit_row(s, row(s, r), w) if upto is None else ite(r < upto, fit_row(s, row(s, r), w), row(s, r)))
+
+
+def grown(s, w, i):
+    """Height grown by i lines at width w: as many lines as the scroll-back has (at most i) come back on top, most
+    recent lowest, cut/padded to the width; the remaining new lines are blank lines at the bottom.
+    -> (rows, scroll-back content, number of blank lines added)"""
+    sbq = s.scrollback_buffer.seq
+    n, h0 = Q.seq_len(sbq), s.height
+    p = imin(i, n)
+    base = width_adjusted(s, w)
+    blank_w = mkrow(w, lambda x: blank(s))
+    rows = mkrows(h0 + i, lambda r: ite(r < p, fit_row(s, Q.seq_get(sbq, n - p + r), w), ite(r < p + h0, Q.seq_get(base, r - p), blank_w)))
+    return rows, Q.seq_slice1(sbq, 0, n - p), i - p
+
+
+def shrunk(s, w, i):
+    """Height shrunk by i lines at width w: the top i lines go to the scroll-back, oldest first (the scroll-back
+    keeps its most recent SCROLLBACK_MAX lines).  -> (rows, scroll-back content)"""
+    sbq = s.scrollback_buffer.seq
+    n, h0 = Q.seq_len(sbq), s.height
+    base = width_adjusted(s, w)
+    drop = imax(0, n + i - SCROLLBACK_MAX)
+    sb = mkrows(imin(n + i, SCROLLBACK_MAX), lambda j: ite(j + drop < n, Q.seq_get(sbq, j + drop), Q.seq_get(base, j + drop - n)))
+    return mkrows(h0 - i, lambda r: Q.seq_get(base, r + i)), sb
+
+
+def M_resize(s, w, h):
+    if h > s.height:
+        rows, sb, _ = grown(s, w, h - s.height)
+    elif h < s.height:
+        rows, sb = shrunk(s, w, s.height - h)
+    else:
+        rows, sb = width_adjusted(s, w), s.scrollback_buffer.seq
+    s1 = upd(s, width=w, height=h, term=rows, scrollback_buffer=SB(sb), scrolling_up=imin(s.scrolling_up, Q.seq_len(sb)),
+             scrollregion_start=0, scrollregion_end=h - 1)
+    s2 = M_set_cursor(s1, *s.term_cursor)  # the cursor stays on its cell where that still exists
+    return upd(s2, tabstops=extended_tabstops(s, tab_bytes(w)))
+
+
+def _w_inv(v):
+    return seq_rows_eq(v.self.term, width_adjusted(v.old.self, v.width, upto=v.i_))
+
+
+def _grow_inv(v):
+    rows, sb, blanks = grown(v.old.self, v.width, v.i_)
+    return both(seq_rows_eq(v.self.term, rows), seq_rows_eq(v.self.scrollback_buffer.seq, sb), v.self.scrollregion_end == v.old.self.scrollregion_end + blanks)
+
+
+def _shrink_inv(v):
+    rows, sb = shrunk(v.old.self, v.width, v.i_)
+    return both(seq_rows_eq(v.self.term, rows), seq_rows_eq(v.self.scrollback_buffer.seq, sb))
+
+
+RESIZE_FIELDS = ("width", "height", "term", "scrollback_buffer", "scrolling_up", "scrollregion_start", "scrollregion_end", *CURSOR_FIELDS, "tabstops")
+
+
+@contract(VT + "TermCanvas.resize", property="C15")
+@modelled
+class resize:
+    params = dict(width=Int, height=Int)
+    modifies = RESIZE_FIELDS
+    inline = HELPERS
+    loops = {
+        0: Loop(modifies=("self.term",), invariant=_w_inv),
+        1: Loop(modifies=("self.term",), invariant=_w_inv),
+        2: Loop(modifies=("self.term", "self.scrollback_buffer", "self.scrollregion_end"), invariant=_grow_inv),
+        3: Loop(modifies=("self.term", "self.scrollback_buffer"), invariant=_shrink_inv),
+    }
+
+    def requires(s, a):
+        return both(a.width >= 1, a.height >= 1)
+
+    def model(old, a):
+        return M_resize(old, a.width, a.height)
+
+    def clauses(old, s, a, result):
+        w, h, h0 = a.width, a.height, old.height
+        n0, n1 = Q.seq_len(old.scrollback_buffer.seq), Q.seq_len(s.scrollback_buffer.seq)
+        yield "new-size", both(s.width == w, s.height == h)
+        yield "scrolling-region-is-the-whole-screen", both(s.scrollregion_start == 0, s.scrollregion_end == h - 1)
+        yield "view-offset-stays-inside-the-scrollback", both(0 <= s.scrolling_up, s.scrolling_up <= n1, s.scrolling_up <= old.scrolling_up)
+        keep = imin(old.width, w)
+        if h < h0:
+            d = h0 - h
+            yield "remaining-lines-keep-their-cells", forall(0, h, lambda r: forall(0, keep, lambda x: cell_eq(cell(s.term, r, x), cell(old.term, r + d, x))))
+            yield "lines-leave-from-the-top-in-order-into-the-scrollback", both(n1 == imin(n0 + d, SCROLLBACK_MAX), forall(imax(0, d - SCROLLBACK_MAX), d, lambda j: forall(0, keep, lambda x: cell_eq(
+                Q.seq_get(Q.seq_get(s.scrollback_buffer.seq, n1 - d + j), x), cell(old.term, j, x)))))
+        elif h > h0:
+            k = imin(h - h0, n0)
+            yield "lines-return-from-the-scrollback-most-recent-lowest", both(n1 == n0 - k, forall(0, k, lambda r: forall(0, imin(w, Q.seq_len(Q.seq_get(old.scrollback_buffer.seq, n0 - k + r))), lambda x: cell_eq(
+                cell(s.term, r, x), Q.seq_get(Q.seq_get(old.scrollback_buffer.seq, n0 - k + r), x)))))
+            yield "old-lines-follow", forall(0, h0, lambda r: forall(0, keep, lambda x: cell_eq(cell(s.term, r + k, x), cell(old.term, r, x))))
+            yield "then-blank-lines", forall(k + h0, h, lambda r: blank_row(s.term, r, old, w))
+        else:
+            yield "lines-keep-their-cells", forall(0, h, lambda r: forall(0, keep, lambda x: cell_eq(cell(s.term, r, x), cell(old.term, r, x))))
+        yield "new-columns-are-blank", implies(h <= h0, forall(0, h, lambda r: forall(old.width, w, lambda x: cell_eq(cell(s.term, r, x), blank(old)))))
+        # FAILS-ON-TREE: TermCanvas(4, 5), cursor (1, 1), resize(6, 5) -> cursor (1, 4): the loops `for y in range(self.height)`
+        # that adjust the width overwrite the saved cursor row `y`, so any change of width sends the cursor to the last row
+        yield "cursor-stays-on-its-cell-where-it-still-exists", cursor_is(s, (imin(old.term_cursor[0], w - 1), imin(old.term_cursor[1], h - 1)))
